@@ -15,9 +15,11 @@ import (
 	"reflect"
 	"sort"
 	"strings"
+	"sync"
 
 	"github.com/google/uuid"
 
+	"github.com/nspcc-dev/neo-go/pkg/core/state"
 	"github.com/nspcc-dev/neo-go/pkg/core/transaction"
 	"github.com/nspcc-dev/neo-go/pkg/util"
 	"github.com/nspcc-dev/neo-go/pkg/vm/stackitem"
@@ -32,6 +34,21 @@ var dumpSets = []struct {
 	{"testdata/testnet-1254789", []string{"balance", "container", "neofsid", "netmap", "audit", "reputation", "alphabet0"}},
 	{"testdata/mainnet-3309907", []string{"balance", "container", "neofsid", "netmap", "audit", "reputation", "alphabet0"}},
 	{"contracts/nns/testdata/testnet-2281632", []string{"nns"}},
+}
+
+var recordedVersions sync.Map
+
+// recordedVersion is what the dumped executable of a contract reports.
+func recordedVersion(prefix string, d *Dump, target string) int64 {
+	key := prefix + "/" + target
+	if v, ok := recordedVersions.Load(key); ok {
+		return v.(int64)
+	}
+	w := NewDumpWorld(1, "dump-probe", d, nil)
+	v := versionOf(w, w.C[target])
+	w.Close()
+	recordedVersions.Store(key, v)
+	return v
 }
 
 func dumpRepoName(target string) string {
@@ -77,6 +94,10 @@ func upgradeDumpBody(r *Run) {
 	}
 	longHistory := Chance(t, "longSnapshotHistory?", 35) // netmap: history extended beyond the default before the upgrade
 	twice := Chance(t, "twice?", 30)
+	claim := 0
+	if Chance(t, "claimVersion?", 50) {
+		claim = 1 + Pick(t, "claimVersion", 8)
+	}
 	d := LoadDump(filepath.Join(RepoDir(), ds.prefix))
 	mutate := func(name string, kvs []KV) []KV {
 		if name != target {
@@ -166,7 +187,43 @@ func upgradeDumpBody(r *Run) {
 		}
 		return out
 	}
-	w := r.Own(NewDumpWorld(n, "dump", d, mutate))
+	// Balance: the un-prefixed account layout was in use by every supported
+	// release below the current one (CHANGELOG 0.20.0: "Prefixes to balance
+	// contract storage scheme"), so the recorded executable may claim any of
+	// them: the version constant it reports and hands to _deploy is rewritten.
+	var patch func(name string, st *state.Contract)
+	claimed := int64(0)
+	if target == "balance" && claim > 0 {
+		cur, prev := TreeVersions()
+		cands := []int64{prev, prev + 1, 16000, 17000, 18000, 19000, 19001, cur - 1}
+		claimed = cands[(claim-1)%len(cands)]
+		recorded := recordedVersion(ds.prefix, d, target)
+		if claimed == prev && recorded != prev {
+			// the recorded executable compares with this very number elsewhere
+			// (its own oldest supported version): not rewritable in place
+			claimed = prev + 1
+		}
+		patch = func(name string, st *state.Contract) {
+			if name != target {
+				return
+			}
+			if sc, k := PatchVersionConstant(st.NEF.Script, recorded, claimed); k > 0 {
+				st.NEF.Script = sc
+				st.NEF.Checksum = st.NEF.CalculateChecksum()
+			} else {
+				claimed = 0
+			}
+		}
+	}
+	w := r.Own(NewDumpWorldPatched(n, "dump", d, mutate, patch))
+	if claimed > 0 {
+		if v := versionOf(w, w.C[target]); v != claimed {
+			harnessf("version constant of the recorded %s executable not rewritten: reports %d, wanted %d", target, v, claimed)
+		}
+		r.Inject("upgrade.claimed_version")
+		r.Fired("upgrade.claimed_version")
+		r.Cell("C16.claimed-version", fmt.Sprintf("%s/%d", filepath.Base(ds.prefix), claimed))
+	}
 	dc := w.C[target]
 	repo := dumpRepoName(target)
 	r.Tracef("dump=%s target=%s n=%d sig=%d gasCut=%d notaryFlag=%d ballots=%d extraAcc=%d longHistory=%v", filepath.Base(ds.prefix), target, n, sig, gasCut, notaryFlag, ballots, extraAcc, longHistory)
